@@ -1,6 +1,7 @@
 (* Parsers area (C08/C09): header-parser models.
    prs_<name> <hex>  ->  ok:<fields>|err|panic|fuel  followed by " a=<max allocation request>"
-   The model is run with g = false (the code as it stands in /repo) unless the op name ends in _g. *)
+   The models are the code as it stands in /repo (after the fixes of findings F36-F46).
+   prs_frame <marker> <hex> -> declared S of the unique frame header with that SOF marker code. *)
 open BinNums
 open Conv
 
@@ -26,15 +27,22 @@ let k_fields ((s : PrsJ2k.ksiz), _) =
     (i s.PrsJ2k.s_xt) (i s.PrsJ2k.s_yt) (i s.PrsJ2k.s_xto) (i s.PrsJ2k.s_yto) (i s.PrsJ2k.s_c)
 
 let register (reg : string -> (string list -> string) -> unit) : unit =
-  let op name (f : bool -> coq_Z list -> string) =
-    reg name (fun a -> match a with [hx] -> f false (bytes_of_hex hx) | _ -> "?");
-    reg (name ^ "_g") (fun a -> match a with [hx] -> f true (bytes_of_hex hx) | _ -> "?") in
-  op "prs_jlsl" (fun g bs -> show jls_fields (PrsJls.jlsl_decode g (fuel_of bs) bs));
-  op "prs_jlsn" (fun g bs -> show jls_fields (PrsJls.jlsn_decode g (fuel_of bs) bs));
-  op "prs_jll" (fun g bs -> show j_fields (PrsJpeg.jll_decode g (fuel_of bs) bs));
-  op "prs_sv1" (fun g bs -> show j_fields (PrsJpeg.sv1_decode g (fuel_of bs) bs));
-  op "prs_bl" (fun g bs -> show j_fields (PrsBaseline.bl_decode g (fuel_of bs) bs));
-  op "prs_j2k" (fun g bs -> show k_fields (PrsJ2k.k_main_header g (fuel_of bs) bs));
+  let op name (f : coq_Z list -> string) =
+    reg name (fun a -> match a with [hx] -> f (bytes_of_hex hx) | _ -> "?") in
+  op "prs_jlsl" (fun bs -> show jls_fields (PrsJls.jlsl_decode (fuel_of bs) bs));
+  op "prs_jlsn" (fun bs -> show jls_fields (PrsJls.jlsn_decode (fuel_of bs) bs));
+  op "prs_jll" (fun bs -> show j_fields (PrsJpeg.jll_decode (fuel_of bs) bs));
+  op "prs_sv1" (fun bs -> show j_fields (PrsJpeg.sv1_decode (fuel_of bs) bs));
+  op "prs_bl" (fun bs -> show j_fields (PrsBaseline.bl_decode (fuel_of bs) bs));
+  op "prs_j2k" (fun bs -> show k_fields (PrsJ2k.k_main_header (fuel_of bs) bs));
+  reg "prs_frame" (fun a -> match a with
+    | [m; hx] -> string_of_int (int_of_z (PrsOutcome.frame_declared (z_of_int (int_of_string m)) (bytes_of_hex hx)))
+    | _ -> "?");
+  reg "prs_rle" (fun a -> match a with
+    | [w; h; ba; spp; hx] ->
+      let z x = z_of_int (int_of_string x) in
+      show (fun () -> "") (PrsRle.rle_frame_prefix (z w) (z h) (z ba) (z spp) (bytes_of_hex hx))
+    | _ -> "?");
   (* declared S of the first frame header, saturated at 2^61 like the Go walker *)
   reg "prs_declared" (fun a -> match a with
     | [hx] ->
